@@ -331,6 +331,32 @@ def s5(ctx, rep):
     rep.put(not bad, "S5", "taint", "TuningJobState.all_configurations: pending and failed trials are never filtered or subtracted", f,
             bad[0][0] if bad else None, "only the observed trials pass through filter_observed_data",
             (bad[0][1] if bad else "") + ": a failed or pending trial can drop out of the exclusion list and its configuration is suggested again")
+    # ... and the black list survives a copy of the state: wherever a TuningJobState is assembled field by field from another
+    # state, the failed trials are among the fields carried over; the state transformer starts from a copy of the whole state
+    n_fw = 0
+    for g in sorted(P.functions.values(), key=lambda g_: g_.qualname):
+        for x in walk_shallow(g.node, include_lambda=True):
+            if not (isinstance(x, ast.Call) and fn_name(x) == "TuningJobState"):
+                continue
+            srcs = {}
+            for kw_ in x.keywords:
+                if kw_.arg:
+                    for y in ast.walk(kw_.value):
+                        if isinstance(y, ast.Attribute) and y.attr == kw_.arg and isinstance(y.value, (ast.Name, ast.Attribute)):
+                            srcs.setdefault(U(y.value), set()).add(kw_.arg)
+            for o, ks in sorted(srcs.items()):
+                if len(ks) >= 2 and not any(k_.arg is None for k_ in x.keywords):
+                    n_fw += 1
+                    rep.put("failed_trials" in ks, "S5", "agreement", f"{g.short}: a TuningJobState assembled from the fields of `{o}` carries its failed trials", g, x,
+                            f"copied {sorted(ks)}", f"the state built from `{o}` takes {sorted(ks)} but not failed_trials: in the new state no trial has failed, "
+                            "the failed configurations leave the exclusion list and are suggested again")
+    mi = P.method("ModelStateTransformer", "__init__")
+    st_ = [x_ for x_ in walk_shallow(mi.node) if isinstance(x_, ast.Assign) and any(U(t) == "self._state" for t in x_.targets)]
+    whole = [x_ for x_ in st_ if isinstance(x_.value, ast.Call) and fn_name(x_.value) in ("copy", "deepcopy") and argn(x_.value, 0) is not None
+             and U(argn(x_.value, 0)) in mi.params]
+    fieldwise = [x_ for x_ in st_ if isinstance(x_.value, ast.Call) and fn_name(x_.value) == "TuningJobState"]
+    rep.put(bool(st_) and len(whole) + len(fieldwise) == len(st_), "S5", "agreement", "ModelStateTransformer starts from a copy of the whole initial state", mi,
+            st_[0] if st_ else None, "", "the transformer's state is not a copy of the state it was given (fields can be missing, or the caller's state is modified in place)")
 
 
 def s5b(ctx, rep):
